@@ -177,6 +177,9 @@ def r3(ctx: Ctx) -> None:
 OPS = {"__ge__": (ast.GtE, ">="), "__le__": (ast.LtE, "<="), "__gt__": (ast.Gt, ">"), "__lt__": (ast.Lt, "<"), "__eq__": (ast.Eq, "=")}
 
 
+REVERSED = {ast.GtE: ast.LtE, ast.LtE: ast.GtE, ast.Gt: ast.Lt, ast.Lt: ast.Gt, ast.Eq: ast.Eq}
+
+
 @rule("C16", "R6.overload-tables", "SIBLING",
       "every comparison dunder of Literal, Term and Expr builds the inequality of its own name; __sub__ is __add__ of the "
       "negated operand; __rmul__/__radd__ delegate with the same operands", floor=15)
@@ -187,11 +190,20 @@ def r6(ctx: Ctx) -> None:
             rets = [n for n in walk_own(f.node) if isinstance(n, ast.Return)]
             other = f.params()[0]
             ok = False
-            if len(rets) == 1 and isinstance(rets[0].value, ast.Compare) and len(rets[0].value.ops) == 1:
-                cmp_ = rets[0].value
-                left_names = {n.id for n in ast.walk(cmp_.left) if isinstance(n, ast.Name)}
-                right_names = {n.id for n in ast.walk(cmp_.comparators[0]) if isinstance(n, ast.Name)}
-                ok = isinstance(cmp_.ops[0], opcls) and "self" in left_names and other not in left_names and other in right_names and "self" not in right_names \
+            val = rets[0].value if len(rets) == 1 else None
+            if isinstance(val, ast.Name):     # returned through a local: its only definition
+                dfs = [n.value for n in walk_own(f.node) if isinstance(n, ast.Assign) and len(n.targets) == 1 and isinstance(n.targets[0], ast.Name)
+                       and n.targets[0].id == val.id]
+                val = dfs[0] if len(dfs) == 1 else None
+            if isinstance(val, ast.Compare) and len(val.ops) == 1:
+                cmp_ = val
+                lhs, rhs, want_op = cmp_.left, cmp_.comparators[0], opcls
+                if "self" in {n.id for n in ast.walk(rhs) if isinstance(n, ast.Name)}:
+                    # 'b <= a' for 'a >= b': Ineq normalises both to the same inequality (table checked by R5)
+                    lhs, rhs, want_op = rhs, lhs, REVERSED[opcls]
+                left_names = {n.id for n in ast.walk(lhs) if isinstance(n, ast.Name)}
+                right_names = {n.id for n in ast.walk(rhs) if isinstance(n, ast.Name)}
+                ok = isinstance(cmp_.ops[0], want_op) and "self" in left_names and other not in left_names and other in right_names and "self" not in right_names \
                     and "Expr" in left_names
             ctx.site(f.where, f"{cls}.{d} compares Expr()+self with the operator of its name")
             if not ok:
